@@ -9,6 +9,9 @@ import Tmcg.Model.Dkg
         OUT = sr|sigma_i|tau_i|[A_0..A_t]|rr|sigma_rec, or `-` (died in Share), or …|- (died in Reconstruct)
     dkg.gen n t p q g h (STRONG WEAK DEV){n} => OUT{n}
         OUT = 1|[QUAL]|x_i|xprime_i|[C_ik…]|y|[y_i]|[z_i]|[v_i]|ck, or 0|[QUAL]|x_i|xprime_i|[C_ik…], or `-`
+    dkg.sign n t p q g h m (STRONG1 WEAK1 DEV1 STRONG2 WEAK2 DEV2){n} ORACLE => OUT{n}
+        (`NTS::Generate`, then `Sign(m)`; ORACLE = the `tmcg_mpz_shash(c, 2, m, r)` queries)
+        OUT = genret|signret|c|s, or `-` (died in Generate), or genret|- (died in Sign)
   STRONG: the values of the party's `tmcg_mpz_srandomm(·, q)` draws, WEAK: its protocol-level
   `tmcg_mpz_wrandom_ui() % 2` draws, DEV: its deviation script (`-` = honest; items `S`, `Z,k`,
   `O,j,k,d`, `I,j,k,d`, `A,g,k,d`, `D,g,k`, `N,g,k,v` joined by `;`).
@@ -106,6 +109,45 @@ def hGen : Handler
       | .ok G => " ".intercalate ((Dkg.runGen G n t ins).map (showGen G)))
   | _ => none
 
-def handlers : List (String × Handler) := [("dkg.vss", hVss), ("dkg.gen", hGen)]
+/-- six tokens per party: coins and script of `NTS::Generate`, coins and script of `Sign` -/
+def pParties6 : Nat → List String → Option (List Dkg.PartyIn × List Dkg.PartyIn × List String)
+  | 0, rest => some ([], [], rest)
+  | n + 1, s1 :: w1 :: d1 :: s2 :: w2 :: d2 :: rest => do
+    let s1 ← pIntList s1; let w1 ← pNatList w1; let d1 ← pDev d1
+    let s2 ← pIntList s2; let w2 ← pNatList w2; let d2 ← pDev d2
+    let (a, b, r) ← pParties6 n rest
+    some (⟨s1, w1, d1, {}⟩ :: a, ⟨s2, w2, d2, {}⟩ :: b, r)
+  | _, _ => none
+
+def showSign (K : Dkg.Party Dkg.GenSt) (P : Dkg.Party Dkg.SignSt) : String :=
+  match K.err, P.err with
+  | some e, _ => s!"exc:{e}"
+  | _, some e => s!"exc:{e}"
+  | none, none =>
+    if K.fs.dead then "-"
+    else
+      let gr := showB (K.status == .ret true)
+      if P.fs.dead then s!"{gr}|-"
+      else match P.status with
+        | .run => s!"{gr}|?"
+        | .ret b => s!"{gr}|{showB b}|{P.st.c}|{P.st.s}"
+
+def hSign : Handler
+  | n :: t :: p :: q :: g :: h :: m :: rest => do
+    let n ← pNat n; let t ← pNat t
+    let p ← pInt p; let q ← pInt q; let g ← pInt g; let h ← pInt h; let m ← pInt m
+    let (ins1, ins2, rest') ← pParties6 n rest
+    match rest' with
+    | [orc] => do
+      let log ← pOracle orc
+      some (match Dkg.mkGrp p q g h with
+        | .error e => toString e
+        | .ok G => withOracle log (fun H =>
+            let keys := Dkg.runGen G n t ins1
+            " ".intercalate ((keys.zip (Dkg.runSign G H n t m ins1 ins2)).map (fun (K, P) => showSign K P))))
+    | _ => none
+  | _ => none
+
+def handlers : List (String × Handler) := [("dkg.vss", hVss), ("dkg.gen", hGen), ("dkg.sign", hSign)]
 
 end Tmcg.DriverDkg
